@@ -17,6 +17,9 @@ def jobs_for(ctx):
     # the same family under big-magnitude embeddings (|coordinate| up to 2^61)
     for k in range(4 if q else 16):
         add("plain" if k % 2 == 0 else "hi", fam="gps", n=8 if q else 60, emb="1,2,3,4,6,7", npts=160, cfg="notree", seed=s * 1000 + 500 + k, R=48)
+    # big-magnitude embeddings again, now with unrelated small triangles whose vertices sit a few units above / below the y of an edge crossing
+    for k in range(10 if q else 32):
+        add("plain" if k % 2 == 0 else "hi", fam="gps", n=30 if q else 120, emb="4,7" if k % 5 else "3,6", npts=140, cfg="notree", xtra=1, seed=s * 1000 + 900 + k, R=48)
     return J
 
 RULE = ("inputs: winding ladder (all 49 (ws,wc) pairs, 2 shapes) + random general-position polygons (TLC-certified GP, "
